@@ -825,6 +825,21 @@ class Random(_Base):
         ph = REG * 4 + [0.1, 3.0]
         irregular = [0.1, 3.1, 5.0, 4.0, 6.0, 0.2, 3.0, 6.1, 0.1, 3.1, 0.2, 3.1, 6.2, 0.3]
         return [
+            # seeded change C15-1: picking the SAME conditions again after a metric they name was overwritten must
+            # re-evaluate them (a cached 'selection already in place' shortcut leaves subset/chains/exports stale)
+            {'phase': ph, 'step': None, 'edge': None, 'probe': ['m>2'],
+             'ops': [{'op': 'add', 'name': 'm', 'vals': [0.0, 1.0, 5.0, 6.0, 7.0]},
+                     {'op': 'pick', 'conds': ['m>2']},
+                     {'op': 'add', 'name': 'm', 'vals': [9.0, 8.0, 0.0, 0.0, 7.0]},
+                     {'op': 'pick', 'conds': ['m>2']},
+                     {'op': 'chain_timings'},
+                     {'op': 'export', 'mode': 'subset'}]},
+            {'phase': ph, 'step': None, 'edge': None, 'probe': ['duration>=3'],
+             'ops': [{'op': 'timings'},
+                     {'op': 'pick', 'conds': ['duration>=3', 'is_good==1'], },
+                     {'op': 'add', 'name': 'duration', 'vals': [1.0, 1.0, 3.0, 1.0, 3.0]},
+                     {'op': 'pick', 'conds': ['duration>=3', 'is_good==1']},
+                     {'op': 'export', 'mode': 'subset'}]},
             # D11: augmented metric of cycle 0 — cache gave NaN, lookup evaluated f on the whole record
             {'phase': ph, 'step': None, 'edge': None, 'probe': ['a!=0'],
              'ops': [{'op': 'compute', 'name': 'a', 'f': 'mean', 'mode': 'augmented', 'vals': _idx(n)},
@@ -945,7 +960,9 @@ class Random(_Base):
                 know('start_sample', [0, n // 2])
                 know('stop_sample', [n - 1, n // 2])
             elif r < 0.64:
-                c = conds()
+                prev = [o['conds'] for o in ops if o['op'] == 'pick']
+                # a third of the picks repeat an earlier selection verbatim (possibly after its metrics were overwritten)
+                c = list(rng.choice(prev)) if prev and rng.random() < 0.35 else conds()
                 ops.append({'op': 'pick', 'conds': c, **({'as_str': 1} if len(c) == 1 and rng.random() < 0.3 else {})})
                 know('chain_ind', [-1, 0, 1])
             elif r < 0.74:
